@@ -954,9 +954,13 @@ pub fn shrink_case(env: &Env, case: &Case, target: &Violation, oracle: &mut Orac
     let mut best = case.clone();
     let mut best_v = target.clone();
     let mut execs = 0usize;
+    let deadline = Instant::now() + std::time::Duration::from_secs(20);
     macro_rules! attempt {
         ($cand:expr) => {{
             let c: Case = $cand;
+            if Instant::now() > deadline {
+                execs = budget;
+            }
             if execs < budget && c.to_json() != best.to_json() {
                 if let Some(vv) = still_fails(env, &c, &best_v, oracle, &mut execs) {
                     best = c;
